@@ -10,11 +10,15 @@ func (sel *Selection) XFind(path *xpath.Path) (*Selection, error) {
 	xp := path
 	r := xpathImpl{}
 	for xp != nil {
-		p, err = r.resolvePath(xp, p)
+		var last *xpath.Path
+		p, last, err = r.resolvePath(xp, p)
 		if p == nil || err != nil {
 			return nil, err
 		}
-		xp = xp.Next
+		// resolvePath already went through the container and list segments
+		// in front of the leaf it decided, resolving them again (relative to
+		// the selection found) failed any path deeper than container/leaf
+		xp = last.Next
 	}
 	return p, nil
 }
